@@ -35,7 +35,14 @@ RULE = (
     "the same typed value, and after a rejected one the view is unchanged.  Every history runs next to 1-3 bystander records (same "
     "descriptor; another descriptor with the same field types) holding ordinary values (False / True / 0 / '' / [] / small ints): their "
     "deep observation, packed bytes and repr, taken when they were built, are compared after EVERY operation on the focus record.  "
-    "'locale' cases run one fixed sweep of bytes -> text conversions (string, wstring, uri, string[] elements, _source; construct / assign "
+    "'dtroute' cases offer values that already are instances of fieldtypes.datetime, obtained from 29 constructor routes (field-wise, "
+    "strptime, combine, fromisoformat, fromtimestamp, utcnow / now / today, fromordinal, fromisocalendar, replace, arithmetic, astimezone, copy, "
+    "pickle, min / max), to datetime and datetime[] fields: accepted => timezone aware, serialisable by the stream and the JSON packer and read "
+    "back equal.  'jsonfloat' cases put nan / inf / -inf (also from text, also inside float[]) through JsonRecordPacker, JsonfileWriter and "
+    "RecordWriter on .json / .jsonl / jsonfile:// targets and read them back.  'decode' cases craft stream frames with the independent "
+    "reference encoder that carry malformed packed values (digest hashes of the wrong length / slot / kind, out-of-range unsigned integers, "
+    "boolean 2, addresses outside the address space, malformed networks): refused, or well-formed typed values that serialise again.  At "
+    "the end of every history the JSON packer must serialise the record too.  'locale' cases run one fixed sweep of bytes -> text conversions (string, wstring, uri, string[] elements, _source; construct / assign "
     "/ _replace; valid UTF-8 with accents, CJK, emoji; invalid bytes) in a worker process under LC_ALL=C LANG=C PYTHONUTF8=0 "
     "PYTHONCOERCECLOCALE=0 and under the default environment and in-process: identical results, equal to the surrogate-escaped UTF-8 "
     "decoding.  One evaluation = one operation executed by the real code.  Oracle after every operation: "
@@ -64,7 +71,9 @@ ASSUMPTIONS = [
     "_replace / init_from_record sources are throw-away records outside the observed set",
     "text with a lone surrogate outside U+DC80-DCFF is offered to string / wstring / uri (scalar and list), dynamic, _source and "
     "_classification only",
-    "net.ipv4.Subnet (deprecated, no packed form) is left out",
+    "net.ipv4.Subnet (deprecated, no packed form) is left out; the deprecated net.ipv4.Address has no JSON form and is left out of the JSON part of the "
+    "'can always be serialised' clause; decoding what the JSON packer wrote is C14's subject and only judged for float / datetime fields here",
+    "the decode route is judged for crafted stream frames only: refused while decoding, or a well-formed typed value that serialises again",
     "decoding is monitored for typed slots, not for value preservation (that is C01)",
     "a field literally named 'self' is never passed by keyword to Record._replace / RecordDescriptor.__call__ (Python binds that keyword to "
     "the instance, the call fails whatever the value); such records are built through recordType(**kwargs) and positional arguments",
@@ -111,16 +120,29 @@ KEY_LOCALE = "bytes-to-text-depends-on-locale"
 LOCALE_ENVS = [("C locale, UTF-8 mode off", {"LC_ALL": "C", "LANG": "C", "PYTHONUTF8": "0", "PYTHONCOERCECLOCALE": "0"}), ("default environment", None)]
 WORKER_TIMEOUT_S = 120
 BY_STAMP = _dt.datetime(2021, 1, 2, 3, 4, 5, 6, tzinfo=_dt.timezone.utc)
+KEY_DT_REPLACE = "datetime-replace-tzinfo-none-stored-naive"
+# ways to obtain a value that already IS an instance of flow.record.fieldtypes.datetime (stored without another conversion)
+DT_ROUTES = ["fieldwise", "fieldwise_us", "fieldwise_tzinfo_none", "fieldwise_aware", "strptime", "strptime_tz", "combine", "combine_aware", "fromisoformat",
+             "fromisoformat_tz", "fromtimestamp", "fromtimestamp_tz", "utcfromtimestamp", "utcnow", "now", "now_tz", "today", "fromordinal", "fromisocalendar",
+             "replace_tzinfo_none", "replace_year", "min", "max", "plus_timedelta", "astimezone", "copy", "pickle", "from_std_naive", "from_text"]
+DECODE_KINDS = ["digest", "digest[]", "grouped-digest", "uint16", "uint32", "boolean", "net.ipaddress", "net.ipnetwork"]
 ALIAS_TYPES = ["digest"] + [t + "[]" for t in gen.LIST_ELEM_TYPES]
 
 
 def setup(ctx):
+    import tempfile
+
     warnings.simplefilter("ignore")
     ctx.state["reach"] = probes.Reach(ANCHORS)
+    ctx.state["tmp"] = tempfile.mkdtemp(prefix="frv-c05-", dir=os.environ.get("VERIF_TMP", "/var/tmp"))
 
 
 def teardown(ctx):
+    import shutil
+
     ctx.state["reach"].stop()
+    if ctx.state.get("tmp"):
+        shutil.rmtree(ctx.state["tmp"], ignore_errors=True)
 
 
 def ops_for(ftype):
@@ -133,6 +155,20 @@ def generate(ctx):
         if ctx.mine(idx + 5):
             yield {"k": "locale", "env": e}
         idx += 1
+    for rep in range(ctx.scale(2, 20)):
+        for route in DT_ROUTES:
+            if ctx.mine(idx):
+                yield {"k": "dtroute", "route": route, "s": subseed("c05", ctx.seed, "dtroute", route, rep)}
+            idx += 1
+    for rep in range(ctx.scale(16, 160)):
+        if ctx.mine(idx):
+            yield {"k": "jsonfloat", "s": subseed("c05", ctx.seed, "jsonfloat", rep)}
+        idx += 1
+    for rep in range(ctx.scale(3, 30)):
+        for kind in DECODE_KINDS:
+            if ctx.mine(idx):
+                yield {"k": "decode", "what": kind, "s": subseed("c05", ctx.seed, "decode", kind, rep)}
+            idx += 1
     if not ctx.quick and ctx.shard == 0:
         yield {"k": "suite"}
     for name in SHADOW_NAMES:
@@ -681,6 +717,7 @@ class Hist:
             ctx.violation(key, "a record that accepted all its assignments cannot be serialised (%s)" % type(e).__name__,
                           detail=self.detail("pack", [], exception=repr(e)[:300], record=_safe_obs(r)))
             return
+        self.end_json(r)
         try:
             back = packer.unpack(data)
         except Exception as e:  # noqa: BLE001 - readability of what was written is C01's subject, only counted here
@@ -691,6 +728,22 @@ class Hist:
             ctx.event("decoded_typed_checked")
         except observe.Untyped as e:
             ctx.violation(None, "untyped slot after decoding", detail=self.detail("decode", [], error=str(e)))
+
+    def end_json(self, r):
+        """the JSON packer is a serialiser too: whatever the stream packer serialises it must serialise as well (the deprecated
+        net.ipv4.Address has no JSON form at all and is left out, see ASSUMPTIONS)"""
+        from flow.record import JsonRecordPacker
+
+        ctx = self.ctx
+        if any(t.startswith("net.ipv4.") for t, _ in self.fields):
+            ctx.event("json_pack_skipped_ipv4_address")
+            return
+        try:
+            JsonRecordPacker().pack(r)
+            ctx.event("json_pack_checked")
+        except Exception as e:  # noqa: BLE001
+            ctx.violation(None, "a record that accepted all its assignments cannot be serialised to JSON (%s)" % type(e).__name__,
+                          detail=self.detail("json pack", [], exception=repr(e)[:300], record=_safe_obs(r)))
 
     def classify_pack_failure(self, r, exc):
         """lone-surrogate-unserialisable: the failure is a UnicodeEncodeError, a string-like slot holds text with a surrogate
@@ -827,6 +880,339 @@ def run_shadow(ctx, case):
         ctx.violation(key, "a record with a field named %r cannot be serialised and decoded" % name, detail=h.detail("roundtrip", [], exception=repr(e)[:300]))
     ctx.cell("shadow", name, t)
     ctx.sample({"case": case, "operations": h.log[:8]}, kind="shadow")
+
+
+# ---- values that already are instances of the datetime field type --------------------------------------
+def dt_route_value(route, rng):
+    """-> value obtained from the field type's own (inherited) constructors"""
+    import copy
+    import pickle
+
+    import flow.record.fieldtypes as ft
+
+    dt = ft.datetime
+    utc = _dt.timezone.utc
+    plus2 = _dt.timezone(_dt.timedelta(hours=2))
+    y, mo, d, h, mi, sec = rng.randint(1971, 2037), rng.randint(1, 12), rng.randint(1, 28), rng.randint(0, 23), rng.randint(0, 59), rng.randint(0, 59)
+    text = "%04d-%02d-%02d %02d:%02d:%02d" % (y, mo, d, h, mi, sec)
+    base = lambda: dt(y, mo, d, h, mi, sec)  # noqa: E731
+    table = {
+        "fieldwise": base,
+        "fieldwise_us": lambda: dt(y, mo, d, h, mi, sec, rng.randrange(10**6)),
+        "fieldwise_tzinfo_none": lambda: dt(y, mo, d, h, mi, sec, tzinfo=None),
+        "fieldwise_aware": lambda: dt(y, mo, d, h, mi, sec, tzinfo=plus2),
+        "strptime": lambda: dt.strptime(text, "%Y-%m-%d %H:%M:%S"),
+        "strptime_tz": lambda: dt.strptime(text + " +0200", "%Y-%m-%d %H:%M:%S %z"),
+        "combine": lambda: dt.combine(_dt.date(y, mo, d), _dt.time(h, mi, sec)),
+        "combine_aware": lambda: dt.combine(_dt.date(y, mo, d), _dt.time(h, mi, sec, tzinfo=utc)),
+        "fromisoformat": lambda: dt.fromisoformat(text.replace(" ", "T")),
+        "fromisoformat_tz": lambda: dt.fromisoformat(text.replace(" ", "T") + "+05:30"),
+        "fromtimestamp": lambda: dt.fromtimestamp(rng.randint(10**8, 2 * 10**9)),
+        "fromtimestamp_tz": lambda: dt.fromtimestamp(rng.randint(10**8, 2 * 10**9), utc),
+        "utcfromtimestamp": lambda: dt.utcfromtimestamp(rng.randint(10**8, 2 * 10**9)),
+        "utcnow": dt.utcnow,
+        "now": dt.now,
+        "now_tz": lambda: dt.now(plus2),
+        "today": dt.today,
+        "fromordinal": lambda: dt.fromordinal(rng.randint(720000, 740000)),
+        "fromisocalendar": lambda: dt.fromisocalendar(y, rng.randint(1, 52), rng.randint(1, 7)),
+        "replace_tzinfo_none": lambda: base().replace(tzinfo=None),
+        "replace_year": lambda: base().replace(year=2000 + rng.randint(0, 30)),
+        "min": lambda: dt.min,
+        "max": lambda: dt.max,
+        "plus_timedelta": lambda: base() + _dt.timedelta(days=rng.randint(1, 400), seconds=rng.randint(0, 86399)),
+        "astimezone": lambda: base().astimezone(_dt.timezone(_dt.timedelta(hours=3))),
+        "copy": lambda: copy.copy(base()),
+        "pickle": lambda: pickle.loads(pickle.dumps(base())),
+        "from_std_naive": lambda: dt(_dt.datetime(y, mo, d, h, mi, sec)),
+        "from_text": lambda: dt(text.replace(" ", "T")),
+    }
+    return table[route]()
+
+
+def roundtrip_datetimes(ctx, h, rec, slots, key, op, used):
+    """accepted => serialisable by the stream and the JSON packer, and the timestamps read back equal"""
+    from flow.record import JsonRecordPacker, RecordPacker
+
+    want = [observe.oval(getattr(rec, n)) for n in slots]
+    for fmt, packer in (("stream", RecordPacker()), ("json", JsonRecordPacker())):
+        ctx.event("dtroute_roundtrip_checked:" + fmt)
+        try:
+            back = packer.unpack(packer.pack(rec))
+            got = [observe.oval(getattr(back, n)) for n in slots]
+        except Exception as e:  # noqa: BLE001
+            ctx.violation(key, "a record holding an accepted timestamp cannot be serialised and read back (%s)" % fmt, detail=h.detail(op, used, exception=repr(e)[:300]))
+            continue
+        if got != want:
+            ctx.violation(key, "an accepted timestamp does not round-trip through the %s format" % fmt, detail=h.detail(op, used, written=want, read=got))
+
+
+def run_dtroute(ctx, case):
+    """Values that already are instances of fieldtypes.datetime (the field stores them without converting again), obtained from
+    every constructor route of the type: whatever is accepted must be timezone aware, serialise (stream, JSON) and read back equal."""
+    import flow.record.fieldtypes as ft
+
+    rng = random.Random(case["s"])
+    route = case["route"]
+    h = Hist(ctx, case, rng, "datetime", fields=[("datetime", "ts"), ("datetime[]", "stamps"), ("string", "other")], descname="c05/dtroute")
+    h.start()
+    key = KEY_DT_REPLACE if route == "replace_tzinfo_none" else None
+    for op in ("ctor_kwargs", "assign", "replace", "from_dict", "assign_list", "ctor_list", "replace_list"):
+        try:
+            v = dt_route_value(route, rng)
+        except Exception as e:  # noqa: BLE001 - the route itself is not available for these arguments: counted, not judged
+            ctx.event("dtroute_value_not_buildable")
+            ctx.note("dtroute_value_not_buildable:" + route, repr(e)[:120])
+            continue
+        ctx.event("dtroute_instance_of_fieldtype" if isinstance(v, ft.datetime) else "dtroute_plain_datetime")
+        listy = op.endswith("_list")
+        value = [v, dt_route_value("fieldwise_aware", rng)] if listy else v
+        slot = "stamps" if listy else "ts"
+        conv = ("list", [("aware",), ("aware",)]) if listy else ("aware",)
+        c = cands.Cand(value, "accept", "fieldtype-instance", conv)
+        used = [(slot, c)]
+        if op in ("ctor_kwargs", "ctor_list"):
+            ok, rec = h.attempt(op, lambda: h.desc.recordType(**{slot: c.fresh(), "other": "o"}), used, creating=True, key_hint=key)
+        elif op in ("assign", "assign_list"):
+            ok, _ = h.attempt(op, lambda: setattr(h.cur, slot, c.fresh()), used, key_hint=key)
+            rec = h.cur
+        elif op in ("replace", "replace_list"):
+            ok, rec = h.attempt(op, lambda: h.cur._replace(**{slot: c.fresh()}), used, creating=True, key_hint=key)
+        else:
+            ok, rec = h.attempt(op, lambda: h.desc.init_from_dict({slot: c.fresh()}), used, creating=True, key_hint=key)
+        ctx.cell("dtroute", route, op)
+        if ok:
+            ctx.event("dtroute_accepted")
+            roundtrip_datetimes(ctx, h, rec, ["ts", "stamps"], key, op, used)
+    h.end()
+    ctx.sample({"case": case, "operations": h.log[:6]}, kind="dtroute:" + route)
+
+
+# ---- non-finite floats through the JSON serialisers -----------------------------------------------------------
+def run_jsonfloat(ctx, case):
+    """float / float[] fields accept nan / inf / -inf (also from text): such records must be written by every JSON serialiser
+    (JsonRecordPacker, JsonfileWriter, RecordWriter on .json / .jsonl / jsonfile://) and come back with floats of the same class."""
+    import math
+
+    from flow.record import JsonRecordPacker, RecordDescriptor, RecordReader, RecordWriter
+    from flow.record.adapter.jsonfile import JsonfileWriter
+
+    rng = random.Random(case["s"])
+    d = RecordDescriptor("c05/jsonfloat", [("string", "name"), ("float", "ratio"), ("float[]", "samples")])
+    nonfinite = [float("nan"), float("inf"), float("-inf"), "nan", "inf", "-inf", "Infinity", "-Infinity", "NaN", gen._f("7ff80000deadbeef"), gen._f("fff8000000000000")]
+    finite = [0.0, -0.0, 1.5, 1e308, 5e-324, "2.5"]
+    recs = []
+    for i in range(rng.randint(2, 5)):
+        r = d(name="r%d" % i)
+        scalar = rng.choice(nonfinite if rng.random() < 0.7 else finite)
+        lst = [rng.choice(nonfinite + finite) for _ in range(rng.randint(0, 3))]
+        how = rng.choice(["assign", "ctor", "replace"])
+        try:
+            if how == "assign":
+                r.ratio = scalar
+                r.samples = list(lst)
+            elif how == "ctor":
+                r = d(name="r%d" % i, ratio=scalar, samples=list(lst))
+            else:
+                r = r._replace(ratio=scalar, samples=list(lst))
+        except Exception as e:  # noqa: BLE001
+            ctx.violation(None, "a float value (incl. non-finite, from text) was rejected", detail={"case": case, "scalar": repr(scalar), "list": repr(lst), "exception": repr(e)[:200]})
+            return
+        observe.assert_typed(r, "jsonfloat")
+        recs.append(r)
+
+    def cls(x):
+        return "nan" if math.isnan(x) else ("+inf" if x == math.inf else ("-inf" if x == -math.inf else "finite:%r" % float(x)))
+
+    def shape(r):
+        return [None if r.ratio is None else cls(r.ratio), [cls(x) for x in (r.samples or [])]]
+
+    want = [shape(r) for r in recs]
+    nonfin = sum(1 for w in want if "finite" not in str(w[0]) or any("finite" not in x for x in w[1]))
+    ctx.event("jsonfloat_records_with_nonfinite", nonfin)
+    info = {"case": case, "records": [repr(r)[:200] for r in recs]}
+
+    def judge(via, got_records):
+        ctx.ev()
+        ctx.event("jsonfloat_serialiser_checked:" + via)
+        ctx.cell("jsonfloat", via)
+        ctx.nontrivial("jsonfloat", via, case["s"])
+        if len(got_records) != len(recs):
+            ctx.violation(None, "%d records written through %s, %d read back" % (len(recs), via, len(got_records)), detail=info)
+            return
+        for r, w in zip(got_records, want):
+            try:
+                observe.assert_typed(r, "read back via " + via)
+                g = shape(r)
+            except Exception as e:  # noqa: BLE001
+                ctx.violation(None, "a record read back via %s is not typed" % via, detail=dict(info, error=repr(e)[:200]))
+                return
+            if g != w:
+                ctx.violation(None, "a float field changed its class (nan / +inf / -inf / finite value) via %s" % via, detail=dict(info, written=w, read=g))
+
+    # 1. the packer itself
+    try:
+        p = JsonRecordPacker()
+        judge("JsonRecordPacker", [p.unpack(p.pack(r)) for r in recs])
+    except Exception as e:  # noqa: BLE001
+        ctx.violation(None, "a record that accepted all its assignments cannot be serialised by JsonRecordPacker (%s)" % type(e).__name__, detail=dict(info, exception=repr(e)[:300]))
+    # 2. the writers
+    tmp = ctx.state["tmp"]
+    n = ctx.evaluations
+    targets = [("RecordWriter(.jsonl)", os.path.join(tmp, "f%d.jsonl" % n)), ("RecordWriter(.json)", os.path.join(tmp, "f%d.json" % n)),
+               ("RecordWriter(jsonfile://)", "jsonfile://" + os.path.join(tmp, "g%d.out" % n)), ("JsonfileWriter", os.path.join(tmp, "h%d.json" % n)),
+               ("RecordWriter(jsonfile://?descriptors=false)", "jsonfile://" + os.path.join(tmp, "i%d.out" % n) + "?descriptors=false")]
+    for via, target in rng.sample(targets, 3):
+        path = target.split("://", 1)[-1].split("?")[0]
+        try:
+            w = JsonfileWriter(target) if via == "JsonfileWriter" else RecordWriter(target)
+            try:
+                for r in recs:
+                    w.write(r)
+                w.flush()
+            finally:
+                w.close()
+        except Exception as e:  # noqa: BLE001
+            ctx.violation(None, "a record that accepted all its assignments cannot be written through %s (%s)" % (via, type(e).__name__), detail=dict(info, exception=repr(e)[:300]))
+            continue
+        finally:
+            pass
+        try:
+            if "descriptors=false" in target:
+                with open(path) as f:
+                    lines = [ln for ln in f if ln.strip()]
+                ctx.ev()
+                ctx.event("jsonfloat_serialiser_checked:" + via)
+                ctx.cell("jsonfloat", via)
+                if len(lines) != len(recs):
+                    ctx.violation(None, "%d records written through %s, %d lines in the file" % (len(recs), via, len(lines)), detail=info)
+            else:
+                rd = RecordReader("jsonfile://" + path)
+                try:
+                    judge(via, list(rd))
+                finally:
+                    rd.close()
+        except Exception as e:  # noqa: BLE001
+            ctx.violation(None, "what %s wrote cannot be read back (%s)" % (via, type(e).__name__), detail=dict(info, exception=repr(e)[:300]))
+        finally:
+            try:
+                os.unlink(path)
+            except OSError:
+                pass
+    ctx.sample({"case": case, "records": info["records"][:3]}, kind="jsonfloat")
+
+
+# ---- the decode route: malformed packed values arriving in a stream ------------------------------------------------
+def run_decode(ctx, case):
+    """Stream frames crafted with the independent reference encoder carry a packed value the field type cannot represent (a
+    digest triple with a hash of the wrong length / in the wrong slot / as hex text / of the wrong arity; an out-of-range unsigned
+    integer; a boolean 2; an address integer outside the address space; malformed network text).  The reader must either refuse,
+    or hand out a record whose field is a well-formed value of the declared type that serialises again (stream and JSON)."""
+    import io
+
+    from flow.record import JsonRecordPacker, RecordPacker, RecordStreamReader
+
+    from .. import refcodec
+    from .. import refmsgpack as mp
+
+    class RawEncoder(refcodec.Encoder):
+        def wire(self, v):
+            if isinstance(v, list) and v and v[0] == "rawwire":
+                return v[1]
+            return super().wire(v)
+
+    rng = random.Random(case["s"])
+    what = case["what"]
+    md5, sha1, sha256 = bytes(rng.randrange(256) for _ in range(16)), bytes(rng.randrange(256) for _ in range(20)), bytes(rng.randrange(256) for _ in range(32))
+    B = mp.Bin
+    if what in ("digest", "digest[]", "grouped-digest"):
+        variants = [
+            ("valid", [B(md5), B(sha1), B(sha256)], True), ("valid-partial", [None, B(sha1), None], True), ("valid-empty", [None, None, None], True),
+            ("md5-truncated", [B(md5[:15]), None, None], False), ("md5-one-byte-too-long", [B(md5 + b"\x00"), None, None], False),
+            ("sha256-in-sha1-slot", [None, B(sha256), None], False), ("sha1-in-md5-slot", [B(sha1), None, None], False), ("sha256-truncated", [None, None, B(sha256[:31])], False),
+            ("md5-as-hex-text", [mp.Str.of(md5.hex()), None, None], False), ("md5-hex-as-bytes", [B(md5.hex().encode()), None, None], False),
+            ("sha1-one-byte", [None, B(b"\x01"), None], False), ("md5-as-int", [5, None, None], False),
+        ]
+        ftype = "digest[]" if what == "digest[]" else "digest"
+    elif what in ("uint16", "uint32"):
+        top = 0xFFFF if what == "uint16" else 0xFFFFFFFF
+        variants = [("valid", 80, True), ("valid-max", top, True), ("max+1", top + 1, False), ("minus-one", -1, False), ("far-outside", 2**40, False)]
+        ftype = what
+    elif what == "boolean":
+        variants = [("valid-true", True, True), ("valid-0", 0, True), ("two", 2, False), ("minus-one", -1, False), ("255", 255, False)]
+        ftype = what
+    elif what == "net.ipaddress":
+        variants = [("valid", 3232235777, True), ("valid-v6", refcodec.Encoder().int_wire(2**100), True), ("minus-one", -1, False),
+                    ("beyond-128-bit", refcodec.Encoder().int_wire(2**128 + 5), False), ("text-garbage", mp.Str.of("not an ip"), False)]
+        ftype = what
+    else:
+        variants = [("valid", mp.Str.of("10.0.0.0/8"), True), ("prefix-33", mp.Str.of("10.0.0.0/33"), False), ("garbage", mp.Str.of("not a net"), False)]
+        ftype = what
+    stamp = ["dt", 2022, 3, 4, 5, 6, 7, 8, 0]
+
+    def rec_obs(name, fields, values):
+        return ["rec", name, fields, [[n, v] for (_, n), v in zip(fields, values)] + [["_source", None], ["_classification", None], ["_generated", stamp], ["_version", ["int", "varint", 1]]]]
+
+    for label, wire, wellformed in variants:
+        raw = ["rawwire", [wire] if ftype.endswith("[]") else wire]
+        fields = [["string", "name"], [ftype, "f"]]
+        o = rec_obs("c05/decode_" + what.replace(".", "_").replace("[]", "_list").replace("-", "_"), fields, [["str", "string", label], raw])
+        if what == "grouped-digest":
+            o = ["grouped", "c05/decodegroup", [o, rec_obs("c05/decode_other", [["varint", "n"]], [["int", "varint", 1]])]]
+        try:
+            enc = RawEncoder(rng)
+            enc.record(o)
+            data = enc.getvalue()
+        except Exception as e:  # noqa: BLE001
+            ctx.event("decode_frame_not_encodable")
+            ctx.note("decode_frame_not_encodable:" + what + "/" + label, repr(e)[:120])
+            continue
+        ctx.ev()
+        ctx.cell("decode", what, label)
+        ctx.nontrivial("decode", what, label, case["s"])
+        info = {"case": case, "variant": label, "field_type": ftype, "stream": data}
+        try:
+            got = list(RecordStreamReader(io.BytesIO(data)))
+            err = None
+        except Exception as e:  # noqa: BLE001 - refusing while decoding is the expected outcome for malformed values
+            got, err = None, e
+        ctx.event("decode:%s/%s" % ("wellformed" if wellformed else "malformed", "refused" if got is None else "decoded"))
+        if got is None:
+            if wellformed:
+                ctx.violation(None, "a well-formed packed value was refused by the stream reader", detail=dict(info, exception=repr(err)[:300]))
+            continue
+        if len(got) != 1:
+            ctx.violation(None, "the crafted stream holds one record, the reader produced %d" % len(got), detail=info)
+            continue
+        r = got[0]
+        member = r.records[0] if what == "grouped-digest" else r
+        # accepted by decoding => typed, well-formed, serialisable again
+        problems = []
+        try:
+            observe.assert_typed(r, "decoded")
+            v = member.f
+            for x in v if isinstance(v, list) else [v]:
+                if ftype.startswith("digest") and x is not None:
+                    for attr, n in (("md5", 32), ("sha1", 40), ("sha256", 64)):
+                        hx = getattr(x, attr)
+                        if hx is not None and not (isinstance(hx, str) and len(hx) == n and all(ch in "0123456789abcdefABCDEF" for ch in hx)):
+                            problems.append("%s reads as %r" % (attr, hx))
+                elif ftype in ("uint16", "uint32") and x is not None and not 0 <= int(x) <= (0xFFFF if ftype == "uint16" else 0xFFFFFFFF):
+                    problems.append("holds %r" % int(x))
+                elif ftype == "boolean" and x is not None and int(x) not in (0, 1):
+                    problems.append("holds %r" % int(x))
+            for fmt, packer in (("stream", RecordPacker()), ("json", JsonRecordPacker())):
+                back = packer.unpack(packer.pack(r))
+                if fmt == "stream" and observe.obs_nometa(observe.obs(back), ()) != observe.obs(r):
+                    problems.append("differs after a %s round trip" % fmt)
+        except Exception as e:  # noqa: BLE001
+            problems.append("raises %s" % repr(e)[:200])
+        ctx.event("decode_accepted_value_checked")
+        if problems:
+            ctx.violation(None if wellformed else "malformed-packed-value-accepted-by-decoding",
+                          "a %s packed value came out of the stream reader as a value the type cannot represent / that cannot be serialised again" % ("well-formed" if wellformed else "malformed"),
+                          detail=dict(info, problems=problems[:5]))
+    ctx.sample({"case": case, "variants": [v[0] for v in variants]}, kind="decode:" + what)
 
 
 def run_locale(ctx, case):
@@ -1168,7 +1554,13 @@ def run_alias(ctx, case):
 
 def execute(ctx, case):
     k = case["k"]
-    if k == "locale":
+    if k == "dtroute":
+        run_dtroute(ctx, case)
+    elif k == "jsonfloat":
+        run_jsonfloat(ctx, case)
+    elif k == "decode":
+        run_decode(ctx, case)
+    elif k == "locale":
         run_locale(ctx, case)
     elif k == "history":
         run_history(ctx, case)
@@ -1202,6 +1594,13 @@ def finish(ctx):
     ctx.require(ev.get("alias_others_checked", 0) > 0, "the shared-default monitor (other records unchanged after an in-place fill) never ran")
     ctx.require(ev.get("alias_identity_checked", 0) > 0, "the default-object identity check never ran")
     ctx.require(ev.get("history_consistency_checked", 0) > 0, "the history-independence monitor never ran")
+    ctx.require(ev.get("json_pack_checked", 0) > 0, "the JSON serialisation check never ran")
+    for fam, counter in (("dtroute", "dtroute_accepted"), ("jsonfloat", "jsonfloat_records_with_nonfinite"), ("decode", "decode:malformed/refused")):
+        if any(c.startswith(fam + "/") for c in ctx.cells):
+            ctx.require(ev.get(counter, 0) > 0, "the '%s' family ran without its deciding counter %s" % (fam, counter))
+    ctx.note_add("families_run:dtroute", ev.get("dtroute_accepted", 0))
+    ctx.note_add("families_run:jsonfloat", sum(v for k, v in ev.items() if k.startswith("jsonfloat_serialiser_checked")))
+    ctx.note_add("families_run:decode", sum(v for k, v in ev.items() if k.startswith("decode:")))
     ctx.require(ev.get("bystander_checked", 0) > 0, "the bystander monitor (other records unchanged after every operation) never ran")
     ctx.require(ev.get("group_view_checked", 0) > 0 and ev.get("group_view_unchanged_checked", 0) > 0, "the grouped-view monitor never ran")
     for q in ("flow.record.base:Record.__setattr__", "flow.record.fieldtypes:typedlist._convert", "flow.record.packer:RecordPacker.pack_obj"):
